@@ -157,6 +157,57 @@ theorem C17_no_partial_block (crc : List UInt8 → Nat) (t : Tx) (fs : FS) :
   unfold finalTx ElaVerif.Ffldb.Tx.putKey
   exact ElaVerif.Treap.find_ins_same _ _ _
 
+/-- a state that `reopen` leaves alone: nothing armed, nothing cached, the directory scan and the
+    in-memory cursor both equal to the persisted write cursor -/
+theorem reopen_fixed (s : St) (harm : s.fs.arm = none) (hfl : s.db.flush = s.db)
+    (hscan : ElaVerif.BlockStore.scan s.fs.files 0 (0, 0) =
+      (let row := (ElaVerif.OrdMap.find (ElaVerif.Ffldb.bucketizedKey ElaVerif.Ffldb.metaID ElaVerif.Ffldb.writeLocKey) s.db.ldb).getD []
+       (ElaVerif.BlockStore.rdLe32 row, ElaVerif.BlockStore.rdLe32 (row.drop 4))))
+    (hcur : (s.fs.curFile, s.fs.curOff) = ElaVerif.BlockStore.scan s.fs.files 0 (0, 0)) :
+    reopen s = some s := by
+  obtain ⟨fs, db⟩ := s
+  obtain ⟨net, max, files, cf, co, arm⟩ := fs
+  simp only at harm hfl hscan hcur
+  subst harm
+  unfold reopen reopenArmed
+  simp only [hfl, hscan]
+  rw [hscan] at hcur
+  simp only [Prod.mk.injEq] at hcur
+  rw [if_neg (by omega), if_neg (by omega)]
+  simp only [Option.map_some, ← hcur.1, ← hcur.2]
+
+/-- **Reopen after reopen = reopen.**  Whatever `reconcileDB` did on the first open (nothing, or a
+    complete `handleRollback`: delete the newer files, truncate the cursor file), a second open
+    finds the directory scan equal to the persisted cursor and changes nothing — files, leveldb
+    and the in-memory cursor are a fixed point. -/
+theorem C17_reconcile_idempotent (s s' : St) (h : reopen s = some s') : reopen s' = some s' := by
+  unfold reopen reopenArmed at h
+  simp only [] at h
+  generalize hrow : (ElaVerif.OrdMap.find (ElaVerif.Ffldb.bucketizedKey ElaVerif.Ffldb.metaID ElaVerif.Ffldb.writeLocKey) s.db.flush.ldb).getD [] = row at h
+  have hwo := rdLe32_lt (row.drop 4)
+  split at h
+  · rename_i hc
+    rw [rollback_none _ _ _ _ rfl] at h
+    simp only [Option.map_some, Option.some.injEq] at h
+    subst h
+    have hsc := scan_rolled s.fs.files _ _ hwo hc
+    exact reopen_fixed _ rfl (DB_flush_flush _) (by simp only [hrow]; exact hsc) (by simp only []; exact hsc.symm)
+  · split at h
+    · simp at h
+    · simp only [Option.map_some, Option.some.injEq] at h
+      subst h
+      rename_i h1 h2
+      refine reopen_fixed _ rfl (DB_flush_flush _) ?_ rfl
+      simp only [hrow]
+      apply Prod.ext <;> simp only [] <;> omega
+
+/-- non-vacuity: files ahead of an (empty) persisted cursor are rolled back by the first open,
+    and the second open returns the same state -/
+example :
+    let s : St := { fs := { files := [some [1, 2, 3, 4, 5], some [1, 2], some [9]], arm := some ⟨"x", 0, 0⟩ } }
+    (reopen s).map (·.fs.files) = some [some [], none, none] ∧ ((reopen s).bind reopen).map (·.fs.files) = some [some [], none, none] := by
+  decide
+
 /-- non-vacuity: a crash between the cache flush and the write-through leaves exactly the
     earlier commits in leveldb (`L1`), not the interrupted one. -/
 example :
